@@ -170,7 +170,93 @@ def r08_3(run, model):
     run.ob("R08.3", "transform_closure|captures computed once", len(cc) == 1, site(LIFT, f.node["sp"]), f"{len(cc)} calls to collect_captured")
 
 
+TYPE_SOURCES = {"get_struct_field_ty", "get_enum_field_ty"}  # declared field types of the (lifted) type definitions
+
+
+def r08_5(run, model):
+    run.rule("R08.5", "closure conversion propagates types bottom-up: wherever transform_expr gives a rebuilt node a type other than the one it "
+                      "had before (tuple, let, call, projection, field access), that type is computed from the converted children's get_ty() "
+                      "(or the declared field type), never from a name-keyed table that only knows top-level functions")
+    f = model.fn("transform_expr", LIFT)
+    ms = list(S.find(f.body, "Match"))
+    if not ms:
+        raise AnalysisIncomplete("transform_expr: no match")
+    m = ms[0]
+    n = 0
+    for arm in m["arms"]:
+        alt = S.strip_refs(S.pat_alts(arm["pat"])[0])
+        h = S.pat_head(alt)
+        if h[0] != "variant":
+            continue
+        variant = h[1][-1]
+        passthrough = set(S.pat_bindings(alt))
+        lets = {}
+        for l in S.find(arm["body"], "Local"):
+            if l.get("init") is not None:
+                for b in S.pat_bindings(l["pat"]):
+                    lets.setdefault(b, []).append(l["init"])
+        converted = {b for b, inits in lets.items() if any(any(True for _ in S.calls(i, "transform_expr", "transform_closure")) for i in inits)}
+        if not converted:
+            continue  # leaf: nothing converted below it
+        for st in S.find(arm["body"], "Struct"):
+            if st["segs"][0] != "LiftExpr" or st["segs"][-1] != variant:
+                continue
+            for fl in st["fields"]:
+                if fl["name"] != "ty":
+                    continue
+                e = fl["expr"]
+                if e is None or (e["k"] == "Path" and e["segs"] == ["ty"] and "ty" in passthrough and "ty" not in lets):
+                    continue  # unchanged type
+                # transitive closure of the defining expressions
+                seen, work, exprs = set(), [e], []
+                while work:
+                    x = work.pop()
+                    exprs.append(x)
+                    short = {fl2["name"] for st2 in S.find(x, "Struct") for fl2 in st2["fields"] if fl2.get("expr") is None}
+                    for nm in S.idents(x) | short:
+                        if nm in lets and nm not in seen:
+                            seen.add(nm)
+                            work.extend(lets[nm])
+                from_children = any(c["k"] == "MethodCall" and c["method"] == "get_ty" and (S.idents(x) & converted) for x in exprs for c in S.walk(x))
+                declared = any(S.callee_name(c) in TYPE_SOURCES for x in exprs for c in S.calls(x))
+                tables = sorted({S.callee_name(c) for x in exprs for c in S.calls(x) if (S.callee_name(c) or "").startswith(("get_func", "lookup", "get_fn"))})
+                n += 1
+                ok = (from_children or declared) and not tables
+                run.ob("R08.5", f"transform_expr|{variant} type from converted children", ok, site(LIFT, st["sp"]),
+                       f"new type of {variant}: " + ("children's get_ty()" if from_children else ("declared field type" if declared else "no converted child consulted")) +
+                       (f"; name-keyed tables consulted: {tables}" if tables else ""),
+                       witness="let mk = make_adder; let add3 = mk(3); add3(10): the call through the alias keeps the unconverted function type, add3 is no longer a closure struct and is called as a bare func")
+    run.floor("rebuilt nodes with a recomputed type in transform_expr", n, 4)
+
+
+GOC = "crates/compiler/src/go/compile.rs"
+
+
+def r08_7(run, model):
+    run.rule("R08.7", "`go f` accepts both representations of a callable (closure struct with an apply function, plain function value): "
+                      "in compile_go the Option answered by the closure-apply lookup is consumed with a branch for None, never unwrapped")
+    f = model.fn("compile_go", GOC)
+    look = [c for c in S.walk(f.body) if c["k"] == "Call" and S.callee_name(c) in ("find_closure_apply_fn",)] + \
+           [c for c in S.walk(f.body) if c["k"] == "MethodCall" and c["method"] == "closure_apply_method"]
+    if not look:
+        raise AnalysisIncomplete("compile_go: closure-apply lookup not found")
+    par = S.Parents(f.body)
+    for c in look:
+        p_ = par.parent(c)
+        forced = p_ is not None and p_["k"] == "MethodCall" and p_["recv"] is c and p_["method"] in ("expect", "unwrap", "unwrap_unchecked")
+        branched = p_ is not None and (p_["k"] in ("Match", "Let") or (p_["k"] == "Local" and p_.get("else") is not None) or
+                                       (p_["k"] == "MethodCall" and p_["recv"] is c and p_["method"] in ("map", "map_or", "map_or_else", "unwrap_or_else", "and_then", "ok_or", "ok_or_else")))
+        run.ob("R08.7", "compile_go|a plain function value is a legal operand of go", (not forced) and branched, site(GOC, c["sp"]),
+               "the lookup is " + ("forced with expect/unwrap" if forced else ("consumed by a branching construct" if branched else "consumed in an unrecognised way")),
+               witness="fn work() -> unit {..} fn main() { go work; } is accepted by the typer (work: () -> unit) and panics in the Go back end: `go statement closure must have an apply method`")
+
+
 def run(run, model):
+    run.try_rule(r08_7, model)
+    run.try_rule(r08_5, model)
+    from rules import c07
+    run.rule("R08.6", "the closure-type predicates and rewriters of lift.rs are structural over every type former (shared with C07 R07.2, restricted to lift.rs)")
+    run.try_rule(c07.r07_2, model, LIFT)
     run.try_rule(r08_1, model)
     run.try_rule(r08_2, model)
     run.try_rule(r08_3, model)
